@@ -249,6 +249,8 @@ def run(ctx):
         dt = str(rng.choice(['real', 'complex', 'int', 'list']))
         cplx = dt == 'complex'
         N = int(rng.integers(2, 15)); p = int(rng.integers(0, min(N, 7)))
+        if tries % 9 == 0:                   # long records, low orders: length-dependent code paths stay inside the exact tie
+            N = int(rng.integers(60, 260)); p = int(rng.integers(0, 3))
         norm = 'biased'
         if kind == 'unbiased':
             norm = 'unbiased'
@@ -350,7 +352,7 @@ def run(ctx):
         if it % 7 == 0:
             N = int(rng.integers(3, 8))
         else:
-            N = int(rng.integers(3, ctx.q(90, 201)))
+            N = int(rng.integers(3, 201))
         pmax = min(N - 1, 30)
         p = int(rng.integers(1, pmax + 1)) if it % 5 else pmax
         x = gen_data(rng, kind, N, cplx)
